@@ -65,6 +65,19 @@ def call(f, *args):
     return r, None
 
 
+def call_same_objects(f, *args):
+    """Like call(), but hands the function the very array objects it is given (no copies): needed where the identity
+    of the arrays across calls matters (histories with in-place modification)."""
+    try:
+        with np.errstate(all="ignore"):
+            r = np.array(f(*args), dtype=float)
+    except Exception as e:  # noqa
+        return None, f"{type(e).__name__}: {str(e)[:120]}"
+    if not np.all(np.isfinite(r)):
+        return None, "non-finite values in the result"
+    return r, None
+
+
 # ============================================================================ conditioning / tolerances
 
 def inv_bound(A, c):
@@ -254,6 +267,28 @@ def check_case(fns, case, limits=False):
         col, _ = call(fns["retrieval_noise"], K, Sa, Sy, np.eye(m)[j])
         law("noise-columns", mx(col / N.da - Gt[:, j] / N.dy[j]) if col is not None else np.inf,
             16 * U * mx(Gt[:, j] / N.dy[j]) + 1e-300, f"retrieval_noise(e_{j}) is not column {j} of retrieval_gain_matrix")
+        # history: the same array objects modified in place between two calls (S_y scaled, K refreshed) -- the second
+        # call must be the function of the CURRENT values (compared with fresh copies handed to the same function)
+        K2, Sa2, Sy2 = K.copy(), Sa.copy(), Sy.copy()
+        r1, _ = call_same_objects(fns["retrieval_noise"], K2, Sa2, Sy2, ey)
+        for _f in ("retrieval_gain_matrix", "averaging_kernel_matrix", "error_covariance_matrix"):
+            call_same_objects(fns[_f], K2, Sa2, Sy2)
+        Sy2 *= 0.25
+        K2[...] = 0.5 * K2
+        r2, _ = call_same_objects(fns["retrieval_noise"], K2, Sa2, Sy2, ey)
+        rf, _ = call(fns["retrieval_noise"], K2.copy(), Sa2.copy(), Sy2.copy(), ey)
+        g2, _ = call_same_objects(fns["retrieval_gain_matrix"], K2, Sa2, Sy2)
+        gf, _ = call(fns["retrieval_gain_matrix"], K2.copy(), Sa2.copy(), Sy2.copy())
+        a2, _ = call_same_objects(fns["averaging_kernel_matrix"], K2, Sa2, Sy2)
+        af, _ = call(fns["averaging_kernel_matrix"], K2.copy(), Sa2.copy(), Sy2.copy())
+        s2, _ = call_same_objects(fns["error_covariance_matrix"], K2, Sa2, Sy2)
+        sf, _ = call(fns["error_covariance_matrix"], K2.copy(), Sa2.copy(), Sy2.copy())
+        for nm, u, v in (("retrieval_noise", r2, rf), ("retrieval_gain_matrix", g2, gf), ("averaging_kernel_matrix", a2, af),
+                         ("error_covariance_matrix", s2, sf)):
+            if u is None or v is None or u.shape != v.shape or not np.array_equal(u, v):
+                bad.append(("history:" + nm, f"{nm} called again after S_y *= 0.25 and K *= 0.5 IN PLACE returns another value than "
+                            f"the same call on fresh copies of the current arrays (max difference "
+                            f"{'n/a' if u is None or v is None or u.shape != v.shape else float(np.max(np.abs(u - v)))!r})"))
     # --- the two limits, as explicit bounds that tend to zero:
     #     ||I - A~|| = ||S~ Sa~^-1|| <= ||(K~^T Sy~^-1 K~)^-1|| ||Sa~^-1||   (K of full column rank)   [Sy -> eps Sy]
     #     ||A~|| = ||S~ K~^T Sy~^-1 K~|| <= ||Sa~|| ||K~^T Sy~^-1 K~||                                  [Sa -> delta Sa]
